@@ -781,8 +781,9 @@ func firstNonRuntimeFrame(sec string) string {
 }
 
 // loadKnown reads /verif/known_findings.txt: lines
-//   finding: property=C17 key=<key> what=<free text>
-//   fixed: property=C03 <commit> <what>      (suppresses nothing)
+//
+//	finding: property=C17 key=<key> what=<free text>
+//	fixed: property=C03 <commit> <what>      (suppresses nothing)
 func loadKnown(id string) map[string]string {
 	out := map[string]string{}
 	f, err := os.Open(filepath.Join(VerifDir, "known_findings.txt"))
